@@ -1,6 +1,7 @@
 import PyYetiVerif.Lemmas.NasFloat
 import PyYetiVerif.Lemmas.NasFloatRat
 import PyYetiVerif.Lemmas.NasCards
+import PyYetiVerif.Lemmas.NasCardsTrip
 /-!
 # C12 — Nastran number fields: exact width, best precision; cards round-trip
 
@@ -298,6 +299,61 @@ example : ∀ t ∈ [Tok.int 101, Tok.blank, Tok.int (-7)], (enc 8 formatFloat8 
   · have : (intStr (-7)).length ≤ 8 := by
       have := natDigits_length_le 0 7 (by norm_num); simp [intStr]; omega
     simp [enc, rjust]; omega
+
+/-- a string field that is a Nastran name (letter first, no white space inside), left-justified
+in any width, is read back as the same string. -/
+theorem str_field_roundtrip (W : Nat) (fmt : Dbl → Str) (c0 : Char) (t : Str)
+    (hc0 : isLetter c0 = true) (hws : ∀ c ∈ c0 :: t, isWs c = false) :
+    cardVal (enc W fmt (.str (c0 :: t))) = .str (c0 :: t) := by
+  have : enc W fmt (.str (c0 :: t)) = (c0 :: t) ++ List.replicate (W - (c0 :: t).length) ' ' := by
+    simp [enc, ljust]
+  rw [this, cardVal, nasSscanf_name c0 t _ hc0 hws]
+
+/-- which formatted fields satisfy the side condition `CardField` of the card theorems: blanks,
+integers that fit, names that fit, and every real field of the emitted grammar that fits (by
+`fixed_branch_accuracy` / `sci_width_accuracy` the formatters' outputs are of this form). -/
+theorem card_fields_ok (W : Nat) (fmt : Dbl → Str) :
+    CardField W (enc W fmt .blank) ∧
+    (∀ n : Int, (intStr n).length ≤ W → CardField W (enc W fmt (.int n))) ∧
+    (∀ s : Str, s ≠ [] → s.length ≤ W → (∀ c ∈ s, isWs c = false ∧ c ≠ '$' ∧ c ≠ ',') →
+      CardField W (enc W fmt (.str s))) ∧
+    (∀ f : Fld, f.wf = true → f.text.length ≤ W → CardField W (rjust W f.text)) := by
+  refine ⟨cardField_blank W, fun n h => cardField_int W fmt n h, ?_, fun f h1 h2 => cardField_fld W f h1 h2⟩
+  intro s hne hlen hch
+  have : enc W fmt (.str s) = ljust W s := by
+    cases s with
+    | nil => exact absurd rfl hne
+    | cons a t => simp [enc]
+  rw [this]
+  exact cardField_ljust W s hlen hch
+
+/-- **`card_roundtrip`, small-field form** (`wtcard8`): for every card name (letter first, at most
+8 characters, no `*`) and every list of fields — any length, so any number of `+` continuation
+lines, blanks anywhere — whose formatted fields are card fields (`card_fields_ok`), the generic
+reader finds exactly one card in the written text and, up to trailing blank fields, returns the
+name (when kept) followed by the value of every written field, field for field:
+`rdcards (wtcard8 fields) = canon fields`.  The exact list (blank padding of continued lines, the
+trailing blanks of the last physical line dropped) is `wtcard8_rdcards`. -/
+theorem card_roundtrip_small (name : Str) (toks : List Tok) (keep : Bool) (hname : NameOK name)
+    (hstar : ∀ c ∈ name, c ≠ '*') (hf : ∀ t ∈ toks, CardField 8 (enc 8 formatFloat8 t)) :
+    ∃ text r, wtcard8 name toks = some text ∧ rdcards name keep text = [r] ∧
+      dtb r = (if keep then [NasVal.str name] else []) ++
+        dtb (toks.map fun t => cardVal (enc 8 formatFloat8 t)) :=
+  wtcard8_roundtrip name toks keep hname hstar hf
+
+/-- non-vacuity: a card of 19 fields (three physical lines) with blanks spanning a line end. -/
+example : ∃ (name : Str) (toks : List Tok), NameOK name ∧ (∀ c ∈ name, c ≠ '*') ∧ toks.length = 19 ∧
+    ∀ t ∈ toks, CardField 8 (enc 8 formatFloat8 t) := by
+  refine ⟨"GRID".toList, List.replicate 6 (Tok.int 7) ++ List.replicate 5 Tok.blank ++ List.replicate 8 (Tok.int (-3)),
+    ⟨⟨'G', "RID".toList, rfl, by decide⟩, by decide, by decide⟩, by decide, by simp, ?_⟩
+  intro t ht
+  simp only [List.mem_append, List.mem_replicate] at ht
+  rcases ht with (⟨_, rfl⟩ | ⟨_, rfl⟩) | ⟨_, rfl⟩
+  · exact cardField_int 8 _ 7 (by
+      have := natDigits_length_le 0 7 (by norm_num); simp [intStr]; omega)
+  · exact cardField_blank 8
+  · exact cardField_int 8 _ (-3) (by
+      have := natDigits_length_le 0 3 (by norm_num); simp [intStr]; omega)
 
 end cards
 
